@@ -33,7 +33,8 @@ func c08state(i int) map[string]any {
 	spec := map[string]any{"l": []any{int64(1), int64(2)}}
 	obj := map[string]any{
 		"apiVersion": "v1", "kind": "ConfigMap",
-		"metadata": map[string]any{"name": "o", "namespace": "ns", "resourceVersion": fmt.Sprint(100 + i), "uid": "uid-1"},
+		"metadata": map[string]any{"name": "o", "namespace": "ns", "resourceVersion": fmt.Sprint(100 + i), "uid": "uid-1",
+			"managedFields": []any{map[string]any{"manager": "kubectl", "operation": "Update"}}},
 		"data":     data, "spec": spec,
 	}
 	switch i {
@@ -50,6 +51,9 @@ func c08state(i int) map[string]any {
 	case 6:
 		// the same content under another uid (object re-created with identical content)
 		obj["metadata"].(map[string]any)["uid"] = "uid-2"
+	case 7:
+		// only metadata.managedFields differs (another field manager touched the object)
+		obj["metadata"].(map[string]any)["managedFields"] = []any{map[string]any{"manager": "kubectl", "operation": "Update"}, map[string]any{"manager": "helm", "operation": "Apply"}}
 	}
 	return obj
 }
@@ -60,6 +64,8 @@ func c08state(i int) map[string]any {
 var c08filters = []string{
 	"", ".", ".data", "{x: .data.a}", "{(.data.b): .data.a}", ".data.a", "[.data.a, .data.b]",
 	".data.a // null", ".data.missing", ".data.a | tostring", ".spec.l[]", `.spec.l[] | {("k" + tostring): 1}`, "empty",
+	// a projection of metadata.managedFields only
+	"{mf: [.metadata.managedFields[]?.manager]}",
 }
 
 type c08proj struct {
@@ -286,9 +292,9 @@ func c08run(cfg c08cfg, seq []c08ev) (sig, what, outcome string) {
 func TestVerifC08(t *testing.T) {
 	r := vres.New("c08")
 	defer r.Finish()
-	states := []int{0, 1, 2, 4, 6}
+	states := []int{0, 1, 2, 4, 6, 7}
 	if vres.Thorough() {
-		states = []int{0, 1, 2, 3, 4, 5, 6}
+		states = []int{0, 1, 2, 3, 4, 5, 6, 7}
 	}
 	maxLen := 3
 	var alpha []c08ev
@@ -344,6 +350,10 @@ func TestVerifC08(t *testing.T) {
 					seq[i] = al[idx[i]]
 					names[i] = seq[i].String()
 				}
+				// quick tier: every sequence of 1 and 2 deliveries, every second one of 3
+				if n == 3 && !vres.Thorough() && (idx[0]+idx[1]+idx[2])%2 == 1 {
+					goto next
+				}
 				for si, sub := range subsets {
 					for _, keep := range []bool{true, false} {
 						ord++
@@ -367,6 +377,7 @@ func TestVerifC08(t *testing.T) {
 						r.Sample(map[string]any{"jqFilter": f, "executeHookOnEvent": sub, "keepFullObjectsInMemory": keep, "events": names, "triggers": outcome})
 					}
 				}
+			next:
 				i := n - 1
 				for i >= 0 {
 					idx[i]++
